@@ -106,10 +106,13 @@ def build_queue_system(nprod, items, ncons, consumer='get', qcap='CAP', caps=(0,
     logs[f'LOG{c}'] = total + 2
   globs = {}
   if consumer == 'batch':
-    sysm.params[batch[0]] = batch[1]
-    sysm.params[block[0]] = block[1]
-    globs[batch[0]] = F.Val('int', e=('param', batch[0]))
-    globs[block[0]] = F.Val('bool', e=('param', block[0]))
+    for (nm, rng), ty in ((batch, 'int'), (block, 'bool')):
+      if rng[0] == rng[1]:
+        globs[nm] = F.Val(ty, e=F.C(rng[0]))          # constant configuration
+      else:
+        sysm.params[nm] = rng
+        globs[nm] = F.Val(ty, e=('param', nm))
+    sysm.consts = {batch[0]: batch[1][0] if batch[1][0] == batch[1][1] else None, block[0]: block[1][0] if block[1][0] == block[1][1] else None}
   comp = F.Compiler(src, sysm.objects, iters, logs, globs)
   for p in range(nprod):
     sysm.threads.append(comp.compile_thread(f'producer{p}', PRODUCER.format(src=f'SRC{p}')))
@@ -237,6 +240,9 @@ def queue_threads(sysm, enc, trace, drivers):
       env[f'SRC{p}'] = R.ModelIter(sched, f'SRC{p}', d['n'], d['base'], d['ret'], None if fail in (None, 255) else fail)
     for k, v in P.items():
       env.setdefault(k, v)
+    for k, v in (getattr(sysm, 'consts', None) or {}).items():
+      if v is not None:
+        env.setdefault(k, v)
     fns = {}
     for name, src in drivers.items():
       ns = dict(env)
